@@ -23,6 +23,10 @@ type Case struct {
 	FEN   string   `json:"fen"`
 	Moves []string `json:"moves"`
 	UCI   bool     `json:"uci,omitempty"`
+	// Prefixes (UCI leg): the game is sent the way a GUI sends it, as several position commands with growing
+	// move lists (these prefix lengths, then the whole list); NewGame[i] sends ucinewgame before the i-th of them.
+	Prefixes []int  `json:"prefixes,omitempty"`
+	NewGame  []bool `json:"newgame,omitempty"`
 }
 
 const knownKey = "start-fen-raw-ep"
@@ -130,6 +134,26 @@ func checkUCI(c Case, rec *evid.Rec) error {
 	}
 	// interactive session: quit must not arrive while the search runs (it would abort it)
 	ses := eng.NewSession()
+	base := strings.SplitN(cmd, " moves ", 2)[0]
+	for i, k := range c.Prefixes {
+		if k < 0 || k > len(c.Moves) {
+			continue
+		}
+		if i < len(c.NewGame) && c.NewGame[i] {
+			ses.Send("ucinewgame")
+		}
+		pc := base
+		if k > 0 {
+			pc += " moves " + strings.Join(c.Moves[:k], " ")
+		}
+		ses.Send(pc)
+		if rec != nil {
+			rec.Class("uci_growing_position_commands")
+		}
+	}
+	if n := len(c.Prefixes); n < len(c.NewGame) && c.NewGame[n] {
+		ses.Send("ucinewgame")
+	}
 	ses.Send(cmd)
 	last, ok := ses.Ask("go depth 2", "bestmove", 60*time.Second)
 	out := strings.Join(ses.Lines(), "\n")
@@ -335,6 +359,15 @@ func TestC10(t *testing.T) {
 				root.Half = gen.Draw(t, 0, 20, "half")
 			}
 			c := Case{FEN: root.FEN(), Moves: gen.History(t, root, 60), UCI: true}
+			if gen.Chance(t, 1, 2, "session") && len(c.Moves) > 0 {
+				k := 0
+				for i := gen.Draw(t, 1, 4, "positionCommands"); i > 0 && k < len(c.Moves); i-- {
+					k += gen.Draw(t, 0, len(c.Moves)-k, "more")
+					c.Prefixes = append(c.Prefixes, k)
+					c.NewGame = append(c.NewGame, gen.Chance(t, 1, 4, "newgame"))
+				}
+				c.NewGame = append(c.NewGame, gen.Chance(t, 1, 4, "newgameLast"))
+			}
 			if rec.WantSample("uci") && len(c.Moves) > 8 {
 				rec.Sample("uci", c)
 			}
